@@ -53,6 +53,7 @@ fn dispatch(sim: &Sim, prop: &str, tier: Tier) -> Outcome {
 
 pub fn run_once(prop: &str, tier: Tier, tape: Tape, trace: bool) -> RunOutput {
     let sim = Sim::new(tape, trace);
+    crate::sim::reset_call_budget();
     let r = catch_unwind(AssertUnwindSafe(|| dispatch(&sim, prop, tier)));
     crate::alloc::set_domain(crate::alloc::SIM);
     let mut out = {
